@@ -377,7 +377,7 @@ func TestC15(t *testing.T) {
 	})
 	// Phase 4: boundary + random values of every type.
 	all := glue.UserFields()
-	ev.Rapid(t, rec, "random", rec.Scale(60000, 3000000), func(t *rapid.T) Case {
+	ev.Rapid(t, rec, "random", rec.Scale(60000, 60000000), func(t *rapid.T) Case {
 		var f ref.Field
 		if rapid.IntRange(0, 9).Draw(t, "fixedoct") == 0 {
 			f = glue.UserFixedOctets(rapid.SampledFrom(append(seq(1, 100), glue.LongFixedOctets...)).Draw(t, "n"))
